@@ -771,8 +771,9 @@ def by_split(ex, s, recv, r, args, kw, node):
         k = z3.Int(fresh_name('splitk'))
         s2.assume(z3.Length(pieces) >= 1)
         s2.assume(z3.Length(pieces) <= z3.Length(r.z) + 1)
-        s2.assume(z3.ForAll([k], z3.Implies(z3.And(k >= 0, k < z3.Length(pieces)),
-                                            z3.Length(pieces[k]) <= z3.Length(r.z))))
+        if 'split-qf' not in ex.spec.tags:     # opt-out (Spec(tags=['split-qf'])): keep the path condition quantifier-free
+            s2.assume(z3.ForAll([k], z3.Implies(z3.And(k >= 0, k < z3.Length(pieces)),
+                                                z3.Length(pieces[k]) <= z3.Length(r.z))))
         out.append((s2, VSeq(pieces, et)))
     return out
 
